@@ -6,6 +6,8 @@ package decoder
 // Add-only: nothing here is compiled into normal builds.
 
 import (
+	"context"
+
 	"github.com/hashicorp/hcl-lang/decoder/internal/ast"
 	"github.com/hashicorp/hcl-lang/decoder/internal/schemahelper"
 	"github.com/hashicorp/hcl-lang/lang"
@@ -49,4 +51,17 @@ func VerifDecodeBody(body hcl.Body, bodySchema *schema.BodySchema) (hcl.Attribut
 		blocks = append(blocks, b.Block)
 	}
 	return content.Attributes, blocks
+}
+
+// VerifExprReferenceOrigins exposes the reference origins of one expression under one constraint.
+func VerifExprReferenceOrigins(pathCtx *PathContext, expr hcl.Expression, cons schema.Constraint, selfRefs bool) reference.Origins {
+	ctx := context.Background()
+	if selfRefs {
+		ctx = schema.WithActiveSelfRefs(ctx)
+	}
+	e, ok := newExpression(pathCtx, expr, cons).(ReferenceOriginsExpression)
+	if !ok {
+		return nil
+	}
+	return e.ReferenceOrigins(ctx)
 }
